@@ -3,6 +3,7 @@ package main
 import (
 	"bytes"
 	"net"
+	"runtime"
 	"time"
 
 	"github.com/free5gc/nas/nasConvert"
@@ -17,6 +18,15 @@ import (
 var sharedPlmn = models.PlmnId{Mcc: "208", Mnc: "93"}
 var sharedSnssaiList = append(make([]models.Snssai, 0, 8), models.Snssai{Sst: 1, Sd: "010203"}, models.Snssai{Sst: 2})
 var sharedTaiList = append(make([]models.Tai, 0, 8), models.Tai{PlmnId: &sharedPlmn, Tac: "000001"}, models.Tai{PlmnId: &sharedPlmn, Tac: "000002"})
+
+var sharedPayload = func() nasType.PayloadContainer {
+	var p nasType.PayloadContainer
+	p.SetLen(32)
+	for i := range p.Buffer {
+		p.Buffer[i] = 0xee
+	}
+	return p
+}()
 
 // sharedInputsIntact: the library only read them (also beyond len, inside the spare capacity)
 func sharedInputsIntact() bool {
@@ -33,7 +43,12 @@ func sharedInputsIntact() bool {
 			return false
 		}
 	}
-	return len(sharedSnssaiList) == 2 && len(sharedTaiList) == 2
+	for _, x := range sharedPayload.Buffer {
+		if x != 0xee {
+			return false
+		}
+	}
+	return len(sharedSnssaiList) == 2 && len(sharedTaiList) == 2 && len(sharedPayload.Buffer) == 32
 }
 
 // more call kinds for a goroutine's program: the conversion helpers (time, timers, names, NSSAI, lists),
@@ -191,6 +206,13 @@ func extraOps(x uint64, w func(format string, a ...interface{})) {
 		s, err := nasConvert.UpuAckToModels(b(17))
 		w("%s%v", s, err == nil)
 	case 15:
+		// a private struct copy of a shared template element, resized and filled: SetLen gives the copy
+		// storage of its own, the template (read by everybody) stays what it was
+		pc := sharedPayload
+		pc.SetLen(uint16(4 + x%24))
+		pc.SetPayloadContainerContents(b(int(4 + x%24)))
+		runtime.Gosched()
+		w("c%x", pc.Buffer)
 		var d nasType.DNN
 		d.SetDNN("internet" + string(rune('a'+x%26)))
 		w("d%s|%x", d.GetDNN(), d.Buffer)
